@@ -105,6 +105,7 @@ type FnExec struct {
 	lemmasUsed map[*Axiom]bool
 	callBindings []*Term // bindings of the closure whose contract is being applied
 	opaqueTargets []*ssa.Function // possible targets of the call being treated as opaque
+	opaqueUsed    map[string]bool // (root) calls with unknown effects made by the unit
 	privAllocs map[*ssa.Alloc]bool
 	curInstr   ssa.Instruction // instruction being executed
 	privRefs   map[*ssa.Alloc]*Term
@@ -156,6 +157,16 @@ func (fx *FnExec) obligN(st *State, kind, what string, p token.Pos, goal *Term, 
 			prev = append(prev, c)
 		}
 		return
+	}
+	if r := fx.root(); r.con != nil && r.con.Partial {
+		switch kind {
+		case "nil-deref", "bounds", "no-panic", "div-zero", "type-assert", "nil-map":
+			// partial correctness: an execution that panics here does not return, so the rest of the path
+			// (and the postcondition) is only about the executions on which the check succeeds
+			fx.c.Assume(Implies(st.guard, goal))
+			fx.trusted("partial correctness of " + r.fn.Name() + ": its postconditions are proved for the executions that return; run-time panics inside it are not excluded")
+			return
+		}
 	}
 	base := fx.prefix + "/" + kind
 	if what != "" {
@@ -317,6 +328,53 @@ func (fx *FnExec) writeObj(st *State, r *Term, t types.Type, v *Term) {
 	si := fx.e.structOf(t)
 	for i := 0; i < si.st.NumFields(); i++ {
 		fx.writeField(st, r, si, i, Sel(si.sels[i], v))
+	}
+}
+
+// immLocalInit: a is a local variable of a pure-package struct type whose address is taken (`ct := old.CondTyp();
+// f(&ct)`). Its memory is written exactly once -- one store of the whole value, in the block of the allocation --
+// so the new object can live in the immutable memory of the pure package. Returns that store, or nil.
+func (fx *FnExec) immLocalInit(a *ssa.Alloc) *ssa.Store {
+	if !a.Heap {
+		return nil
+	}
+	n, ok := a.Type().(*types.Pointer).Elem().(*types.Named)
+	if !ok || !fx.e.isPurePkg(n.Obj().Pkg()) {
+		return nil
+	}
+	if _, ok := n.Underlying().(*types.Struct); !ok {
+		return nil
+	}
+	var init *ssa.Store
+	for _, ref := range *a.Referrers() {
+		switch r := ref.(type) {
+		case *ssa.Store:
+			if r.Addr != a {
+				continue // the address itself is stored somewhere: not a write of the object
+			}
+			if init != nil || r.Block() != a.Block() {
+				return nil
+			}
+			init = r
+		case *ssa.FieldAddr, *ssa.IndexAddr:
+			// a field address could be written through
+			return nil
+		}
+	}
+	return init
+}
+
+// assumeObj: the memory of the fresh object r of struct type t holds the value v (see immLocalInit).
+func (fx *FnExec) assumeObj(st *State, r *Term, t types.Type, v *Term) {
+	si := fx.e.structOf(t)
+	for i := 0; i < si.st.NumFields(); i++ {
+		ft := si.st.Field(i).Type()
+		if _, ok := ft.Underlying().(*types.Struct); ok {
+			fx.assumeObj(st, fx.emb(r, si, i), ft, Sel(si.sels[i], v))
+			continue
+		}
+		h := fx.heapGet(st, fieldHeapName(si, i), ArrSort(SInt, fx.fieldSort(si, i)))
+		fx.c.Assume(Implies(st.guard, Eq(Select(h, r), Sel(si.sels[i], v))))
 	}
 }
 
@@ -533,7 +591,7 @@ func (fx *FnExec) nilCheck(st *State, r *Term, p token.Pos) {
 // assignCheck: when verifying a function against an assigns clause, every heap
 // store must hit a location in the assigns set or an object allocated in this call.
 func (fx *FnExec) assignCheck(st *State, lv *LVal, p token.Pos) {
-	if !fx.checkAssigns || fx.beh == nil {
+	if !fx.checkAssigns || fx.beh == nil || fx.root().beh.AssignsAny {
 		return
 	}
 	root := lv.obj
@@ -561,7 +619,7 @@ func (fx *FnExec) assignCheck(st *State, lv *LVal, p token.Pos) {
 }
 
 func (fx *FnExec) assignCheckRef(st *State, ref *Term, kind string, p token.Pos) {
-	if !fx.checkAssigns || fx.beh == nil {
+	if !fx.checkAssigns || fx.beh == nil || fx.root().beh.AssignsAny {
 		return
 	}
 	allowed := []*Term{fx.isFresh(ref)}
@@ -1219,7 +1277,16 @@ func (fx *FnExec) loopHead(li *loopInfo, st *State) {
 	sort.Strings(hs)
 	if ms.opaque {
 		fx.havocHeap(st)
-		hs = nil
+		// components the unit keeps across calls with unknown effects survive the havoc; the loop's own
+		// stores to them are havoced like any other
+		kept := fx.keptKeys(st)
+		var hs2 []string
+		for _, h := range hs {
+			if kept[h] {
+				hs2 = append(hs2, h)
+			}
+		}
+		hs = hs2
 	}
 	allocHead := fx.heapGet(st, "alloc", SInt)
 	for _, h := range hs {
@@ -1496,6 +1563,12 @@ func (fx *FnExec) execInstr(b *ssa.BasicBlock, st *State, ins ssa.Instruction) b
 	case *ssa.Alloc:
 		fx.doAlloc(st, x)
 	case *ssa.Store:
+		if a, ok := x.Addr.(*ssa.Alloc); ok && fx.immLocalInit(a) == x {
+			// the one initialising store of a local copy of a pure-package struct: the (immutable) memory of
+			// the new object holds the stored value
+			fx.assumeObj(st, fx.val(st, a), a.Type().(*types.Pointer).Elem(), fx.val(st, x.Val))
+			break
+		}
 		lv := fx.lvalOf(st, x.Addr)
 		fx.store(st, lv, fx.val(st, x.Val), x.Pos())
 	case *ssa.UnOp:
@@ -1614,7 +1687,9 @@ func (fx *FnExec) doAlloc(st *State, x *ssa.Alloc) {
 		fx.privRefs[x] = r
 	}
 	if _, ok := et.Underlying().(*types.Struct); ok {
-		fx.writeObj(st, r, et, fx.e.zero(et))
+		if fx.immLocalInit(x) == nil {
+			fx.writeObj(st, r, et, fx.e.zero(et))
+		}
 		fx.lvals[x] = &LVal{kind: "obj", obj: r, ty: et}
 		return
 	}
